@@ -86,7 +86,9 @@ class Ctx:
                    "mode": mode, "note": note, "seed": self.seed, "extra": extra}
         if not spec_ok:
             k = findings_mod.match(self.known, self.prop, op, hyp or {}, mode)
-            if k is not None:
+            # a listed finding covers the case only while the code still does what the model (which follows the code,
+            # findings included) says it does: another wrong result at the same call site is a new violation
+            if k is not None and agree:
                 self.known_hits.setdefault(k["id"], {"entry": k, "count": 0, "example": rec})
                 self.known_hits[k["id"]]["count"] += 1
                 self.known_hits[k["id"]].setdefault("ops", collections.Counter())[op] += 1
